@@ -164,7 +164,7 @@ func checkC15(c *Ctx, r *Result, tier string) {
 	// ---- R15b -------------------------------------------------------------------------------
 	nc, nw, ns := checkCondProtocol(c, r, lfs, "R15b", func(class string) bool { return strings.HasPrefix(class, "interpreter.interrogationState") })
 	r.Floor("R15b-conds", nc, 1)
-	r.Floor("R15b-waits", nw, 2)
+	r.Floor("R15b-waits", nw, 1)
 	r.Floor("R15b-signals", ns, 1)
 
 	// ---- R15c -------------------------------------------------------------------------------
@@ -318,6 +318,20 @@ func c15BreakOnError(c *Ctx, r *Result, dbgIface *types.Interface) {
 			allInstrs(fn, func(in ssa.Instruction) {
 				if op, ok := condOpOf(in); ok && op.Kind == "Wait" {
 					waits = append(waits, in)
+				}
+				// a helper that waits
+				if call, ok := in.(*ssa.Call); ok {
+					if f := call.Call.StaticCallee(); f != nil && c.modFuncSet[f] && c.PkgOf(f) == "interpreter" && f != fn {
+						has := false
+						allInstrs(f, func(x ssa.Instruction) {
+							if op, ok := condOpOf(x); ok && op.Kind == "Wait" {
+								has = true
+							}
+						})
+						if has {
+							waits = append(waits, in)
+						}
+					}
 				}
 			})
 			if len(waits) == 0 {
